@@ -1963,4 +1963,134 @@ theorem unpaused_nonticks (P : Prog) : ∀ (evs : List Ev) (c : Cfg),
     | complete f o => simpa [unpaused, evImage, erasePP, isTick] using this
     | callSoon r => simpa [unpaused, evImage, erasePP, isTick] using this
 
+/-! ### the run with pauses is never ahead: its trace is the older part of the reference run's trace -/
+
+/-- `c'` has executed what `c` has executed, and possibly more (traces are newest first) -/
+def TraceExt (c c' : Cfg) : Prop := ∃ l, c'.trace = l ++ c.trace
+theorem TraceExt.of_eq {c c' : Cfg} (h : c'.trace = c.trace) : TraceExt c c' := ⟨[], by simp [h]⟩
+theorem TraceExt.trans {a b c : Cfg} (h1 : TraceExt a b) (h2 : TraceExt b c) : TraceExt a c := by
+  obtain ⟨l1, e1⟩ := h1; obtain ⟨l2, e2⟩ := h2
+  exact ⟨l2 ++ l1, by rw [e2, e1, List.append_assoc]⟩
+
+theorem runAction_trace (c : Cfg) (i : Nat) (next : Option SObj) : (runAction c i next).trace = c.trace := by
+  unfold runAction
+  split
+  · rfl
+  · split
+    · rfl
+    · split
+      · dsimp only
+        rw [(setActionStatus_sameP _ _ _).2.1]
+        show (match next with | some s => transitionTo c s | none => c).trace = c.trace
+        cases next with
+        | none => rfl
+        | some s => exact (transitionTo_keep c s).1
+      · dsimp only
+        rw [(setActionStatus_sameP _ _ _).2.1]
+        exact (transitionTo_keep c _).1
+
+theorem dispatch_trace (c : Cfg) (next : Option SObj) : (dispatch c next).trace = c.trace := by
+  unfold dispatch
+  split
+  · rfl
+  · split
+    · split
+      · exact runAction_trace ..
+      · cases next with
+        | none => rfl
+        | some s => exact (transitionTo_keep c s).1
+    · cases next with
+      | none => rfl
+      | some s => exact (transitionTo_keep c s).1
+
+theorem endOfStep_trace (c : Cfg) (r : StepEnd) : (endOfStep c r).trace = c.trace := by
+  rw [endOfStep_unfold]
+  rw [(finally_sameP _).2.1, dispatch_trace, (prepare_sameP c r).2.1]
+
+theorem finishUser_trace (c : Cfg) (o : Outcome) : (finishUser c o).trace = c.trace := by
+  cases o with
+  | raise e => exact endOfStep_trace ..
+  | ret cmd =>
+    show (endOfStep (cmdToState c cmd).1 _).trace = c.trace
+    rw [endOfStep_trace, (cmdToState_sameP c cmd).2.1]
+
+theorem wake_trace (c : Cfg) (fn wf : Nat) (w : WF) : (wake c fn wf w).trace = c.trace := by
+  cases w with
+  | pending => rfl
+  | result v => exact endOfStep_trace ..
+  | failed e => exact endOfStep_trace ..
+  | interrupted k =>
+    unfold wake
+    dsimp only
+    rw [endOfStep_trace]
+    split
+    · split <;> rfl
+    · rfl
+
+theorem traceExt_cont (k : Cfg → Cfg) (hk : ∀ e, TraceExt e (k e)) (c e : Cfg) (h : e.trace = c.trace) : TraceExt c (k e) :=
+  TraceExt.trans (TraceExt.of_eq h) (hk e)
+
+theorem stepBodyK_traceExt (P : Prog) (k : Cfg → Cfg) (hk : ∀ e, TraceExt e (k e)) (c : Cfg) :
+    TraceExt c (stepBodyK P k c) := by
+  cases hst : c.st with
+  | created fn =>
+    rw [stepBodyK_created P k c fn hst]
+    exact traceExt_cont k hk c _ (endOfStep_trace _ _)
+  | running fn args kw =>
+    rw [stepBodyK_running P k c fn args kw hst]
+    split
+    · refine TraceExt.trans ?_ (hk _)
+      exact ⟨[{ fn := fn, args := args, kw := kw, paused := c.paused.isSome }], by rw [finishUser_trace]; rfl⟩
+    · exact ⟨[{ fn := fn, args := args, kw := kw, paused := c.paused.isSome }], rfl⟩
+  | waiting fn wf wk aw =>
+    cases hw : c.wfs[wf]? with
+    | none =>
+      have : stepBodyK P k c = { c with stepping := true } := by
+        unfold stepBodyK; dsimp only; rw [hst]; dsimp only; rw [hw]
+      rw [this]; exact TraceExt.of_eq rfl
+    | some w =>
+      by_cases hp : w = .pending
+      · subst hp
+        rw [stepBodyK_waiting_pending P k c fn wf wk aw hst hw]; exact TraceExt.of_eq rfl
+      · rw [stepBodyK_waiting_done P k c fn wf wk aw w hst hw hp]
+        exact traceExt_cont k hk c _ (wake_trace _ _ _ _)
+  | finished v ok =>
+    rw [stepBodyK_terminal P k c (by rw [hst]; simp [SObj.label, terminal, allowed])]
+    exact traceExt_cont k hk c _ (endOfStep_trace _ _)
+  | excepted e =>
+    rw [stepBodyK_terminal P k c (by rw [hst]; simp [SObj.label, terminal, allowed])]
+    exact traceExt_cont k hk c _ (endOfStep_trace _ _)
+  | killed =>
+    rw [stepBodyK_terminal P k c (by rw [hst]; simp [SObj.label, terminal, allowed])]
+    exact traceExt_cont k hk c _ (endOfStep_trace _ _)
+
+theorem loopHead_traceExt (P : Prog) : ∀ (n : Nat) (c : Cfg), TraceExt c (loopHead P n c) := by
+  intro n
+  induction n with
+  | zero => intro c; exact TraceExt.of_eq rfl
+  | succ n ih =>
+    intro c
+    unfold loopHead
+    split
+    · exact TraceExt.of_eq rfl
+    · split
+      · exact TraceExt.of_eq rfl
+      · split
+        · exact TraceExt.of_eq rfl
+        · split
+          · split
+            · exact TraceExt.of_eq rfl
+            · exact stepBodyK_traceExt P _ ih c
+          · exact stepBodyK_traceExt P _ ih c
+
+/-- in every phase of the simulation the reference run has executed everything the run with pauses has executed, in the
+same order, and possibly more -/
+theorem Sim.never_ahead {P : Prog} {c d : Cfg} (h : Sim P c d) : TraceExt c d := by
+  rcases h with h | h | h
+  · exact TraceExt.of_eq (sh_fields h.core.sh).2.2.2.2.2.2.2.2.2.2.2.1.symm
+  · exact TraceExt.of_eq (sh_fields h.sh).2.2.2.2.2.2.2.2.2.2.2.1.symm
+  · obtain ⟨_, d0, n, _, _, hd, hm⟩ := h
+    rw [hd]
+    exact TraceExt.trans (TraceExt.of_eq (sh_fields hm.core.sh).2.2.2.2.2.2.2.2.2.2.2.1.symm) (loopHead_traceExt P n d0)
+
 end PMF
